@@ -8,7 +8,7 @@ import (
 
 func init() {
 	register(&Property{ID: "C09", Run: runC09,
-		Explain: "Gate table (T6): each score threshold of C09 is one normalised comparison between a score value (peerScore.Score or the heartbeat's memoising closure) and a named threshold field, with a named effect, decided by edge-cut dominance on go/cfg — including the boundary operator (< vs <=). Rows: G1 AcceptFrom (direct => AcceptAll; score<graylist => AcceptNone; else the gater), G2/G3 IHAVE/IWANT ignored below gossipThreshold before any effect, G4 emitGossip recipients (>= gossipThreshold, not excluded, not direct, mesh-capable), G5/G6 flood-publish and floodsub recipients (direct or >= publishThreshold), G7 fanout selection filters (>= publishThreshold, not direct), G8 fanout drop (< publishThreshold or left topic), G9 GRAFT from negative score refused with PRUNE, doPX=false on every refusing path that does not know the score to be non-negative, backoff added, G10 heartbeat prunes negative scores with noPX, G11/G12 PX only at/above acceptPXThreshold and only with a valid signed record matching the peer ID, G13 gater result set within {AcceptAll,AcceptControl}, G14 handleIncomingRPC arms (AcceptNone returns before everything; AcceptControl reaches HandleRPC on every path and never pushMsg), G15 threshold validation orderings. (audit round) G9: score freshness in handleGraft; G12: the record's signing key belongs to the advertised peer ID. NOT decided: that Score is computed correctly (C10), timing of 'next heartbeat'.",
+		Explain: "Gate table (T6): each score threshold of C09 is one normalised comparison between a score value (peerScore.Score or the heartbeat's memoising closure) and a named threshold field, with a named effect, decided by edge-cut dominance on go/cfg — including the boundary operator (< vs <=). Rows: G1 AcceptFrom (direct => AcceptAll; score<graylist => AcceptNone; else the gater), G2/G3 IHAVE/IWANT ignored below gossipThreshold before any effect, G4 emitGossip recipients (>= gossipThreshold, not excluded, not direct, mesh-capable), G5/G6 flood-publish and floodsub recipients (direct or >= publishThreshold), G7 fanout selection filters (>= publishThreshold, not direct), G8 fanout drop (< publishThreshold or left topic), G9 GRAFT from negative score refused with PRUNE, doPX=false on every refusing path that does not know the score to be non-negative, backoff added, G10 heartbeat prunes negative scores with noPX, G11/G12 PX only at/above acceptPXThreshold and only with a valid signed record matching the peer ID, G13 gater result set within {AcceptAll,AcceptControl}, G14 handleIncomingRPC arms (AcceptNone returns before everything; AcceptControl reaches HandleRPC on every path and never pushMsg), G15 threshold validation orderings. (audit round) G9: score freshness in handleGraft; G12: the record's signing key belongs to the advertised peer ID. (second wave) G11: handlePrune reads the score per entry; G10: the heartbeat's pruning closures drop the score memo entry. NOT decided: that Score is computed correctly (C10), timing of 'next heartbeat'.",
 		Assume:  []string{"peerScore.Score returns the peer's score (C10)", "single-definition locals are not modified between definition and test (checked by reaching definitions)"},
 		Mutants: []Mutant{
 			{Name: "heartbeat-memo-kept-after-prune", File: "gossipsub.go", Old: "\t\t\t// leaving a mesh changes the peer's score: the other topics are judged with the new one\n\t\t\tdelete(scores, p)\n", New: "", Expect: "G10"},
